@@ -376,7 +376,7 @@ theorem restart_empty {o : Obs} (hn : o.repo.getNext = none) :
 
 /-- the restart keeps the hook-timer invariant (whether or not the scheduler owed a wake-up) -/
 theorem restart_inv {w : World} (hL : LiveInv w) : Inv (w.obs.stopTimer.startTimer none) :=
-  inv_startTimer (Or.inl (inv_stopTimer hL.weak)) none
+  inv_startTimer (Or.inl hL.inv_stop) none
 
 /-! ## No task is lost: the global statement -/
 
@@ -691,6 +691,7 @@ theorem sched_repo_cases (w : World) (a : SAct) :
       | exact Or.inl (startTimer_repo _ _)
       | exact Or.inr (Or.inl ⟨_, _, rfl⟩)
       | exact Or.inr (Or.inr ⟨_, _, rfl⟩)
+      | exact Or.inr (Or.inr ⟨_, none, (dispatch_step_repo_core _ _ _).symm⟩)
 
 theorem ConsInv.step {w : World} (hL : LiveInv w) (h : ConsInv w) (a : Act)
     (hu : World.UserOk w a) : ConsInv (w.step a) := by
